@@ -76,6 +76,10 @@ pub struct M {
     pub plain: bool,
     /// small alphabet (one station behind node 0 or 1, one sender on node 2, untagged) for deeper schedules: refresh, move, expiry
     pub narrow: bool,
+    /// default peer timeout (300 s): the nodes announce themselves every 90 s only, so nothing but the periodic housekeeping
+    /// touches the table between two injections (with the 5 s peer timeout of the other variants an announcement arrives
+    /// every second); no Drop event (it would take 300 s)
+    pub quiet: bool,
 }
 
 impl M {
@@ -116,7 +120,7 @@ impl Model for M {
                 if self.plain {
                     c.crypto.algorithms = vec!["plain".to_string()];
                 }
-                c.peer_timeout = 5; // shorter than the switch timeout: a peer can leave while what was learned from it is still fresh
+                c.peer_timeout = if self.quiet { 300 } else { 5 }; // 5: shorter than the switch timeout, a peer can leave while what was learned from it is still fresh
                 c
             })
             .collect();
@@ -163,7 +167,9 @@ impl Model for M {
                 if self.narrow && node == 2 {
                     continue;
                 }
-                v.push(Ev::Drop(node));
+                if !self.quiet {
+                    v.push(Ev::Drop(node));
+                }
                 v.push(Ev::Close(node));
             }
         }
@@ -418,11 +424,12 @@ pub fn run_router(c: &RouterCase) -> CaseResult {
 
 pub fn variants(tier: Tier) -> Vec<(String, M, usize)> {
     vec![
-        ("learning_switch".to_string(), M { mode: Mode::Switch, tier, n: 3, plain: false, narrow: false }, tier.pick(3, 5)),
-        ("learning_switch_station".to_string(), M { mode: Mode::Switch, tier: Tier::Quick, n: 3, plain: false, narrow: true }, tier.pick(6, 10)),
-        ("learning_hub".to_string(), M { mode: Mode::Hub, tier: Tier::Quick, n: 3, plain: false, narrow: false }, tier.pick(2, 3)),
-        ("learning_switch_plain".to_string(), M { mode: Mode::Switch, tier: Tier::Quick, n: 3, plain: true, narrow: false }, tier.pick(2, 3)),
-        ("learning_normal_tap".to_string(), M { mode: Mode::Normal, tier: Tier::Quick, n: 3, plain: false, narrow: false }, tier.pick(2, 3)),
+        ("learning_switch".to_string(), M { mode: Mode::Switch, tier, n: 3, plain: false, narrow: false, quiet: false }, tier.pick(3, 5)),
+        ("learning_switch_station".to_string(), M { mode: Mode::Switch, tier: Tier::Quick, n: 3, plain: false, narrow: true, quiet: false }, tier.pick(6, 10)),
+        ("learning_switch_quiet".to_string(), M { mode: Mode::Switch, tier: Tier::Quick, n: 3, plain: false, narrow: true, quiet: true }, tier.pick(5, 7)),
+        ("learning_hub".to_string(), M { mode: Mode::Hub, tier: Tier::Quick, n: 3, plain: false, narrow: false, quiet: false }, tier.pick(2, 3)),
+        ("learning_switch_plain".to_string(), M { mode: Mode::Switch, tier: Tier::Quick, n: 3, plain: true, narrow: false, quiet: false }, tier.pick(2, 3)),
+        ("learning_normal_tap".to_string(), M { mode: Mode::Normal, tier: Tier::Quick, n: 3, plain: false, narrow: false, quiet: false }, tier.pick(2, 3)),
     ]
 }
 
